@@ -72,6 +72,7 @@ LEVEL_NOTE = ("Trusted: Coq kernel; extraction + OCaml driver + Python harness f
               "iteration orders as logged; float/rational tolerance 1e-9. No axioms.")
 
 IMPL_TIMEOUT = 120.0
+BATCH = 30      # cases are slow; core stops after the first batch that holds a concrete violation
 
 # ----------------------------------------------------------------- motif shapes on local vertices 0..n-1
 SHAPES = {
